@@ -87,6 +87,16 @@ func (f *ReverseBoltCursor) Seek(val []byte) {
 	}
 }
 
+// stripFieldType removes the leading type tag of a typed list key. Unlike GetTypeAndValue it
+// returns an empty, non-nil slice for a one byte key (the empty string element), because the
+// cursors use a nil key to signal that they are exhausted.
+func stripFieldType(key []byte) []byte {
+	if len(key) == 0 {
+		return nil
+	}
+	return key[1:]
+}
+
 func NewTypedForwardBoltCursor(cursor *bbolt.Cursor, fieldType FieldType) ast.SeekableSetCursor {
 	result := &TypedForwardBoltCursor{
 		BaseBoltCursor: BaseBoltCursor{
@@ -97,7 +107,7 @@ func NewTypedForwardBoltCursor(cursor *bbolt.Cursor, fieldType FieldType) ast.Se
 	}
 
 	key, _ := result.cursor.First()
-	_, result.key = GetTypeAndValue(key)
+	result.key = stripFieldType(key)
 
 	return result
 }
@@ -109,13 +119,13 @@ type TypedForwardBoltCursor struct {
 
 func (f *TypedForwardBoltCursor) Next() {
 	key, _ := f.cursor.Next()
-	_, f.key = GetTypeAndValue(key)
+	f.key = stripFieldType(key)
 }
 
 func (f *TypedForwardBoltCursor) Seek(val []byte) {
 	searchVal := PrependFieldType(f.fieldType, val)
 	key, _ := f.cursor.Seek(searchVal)
-	_, f.key = GetTypeAndValue(key)
+	f.key = stripFieldType(key)
 }
 
 func NewTypedReverseBoltCursor(cursor *bbolt.Cursor, fieldType FieldType) ast.SeekableSetCursor {
@@ -128,7 +138,7 @@ func NewTypedReverseBoltCursor(cursor *bbolt.Cursor, fieldType FieldType) ast.Se
 	}
 
 	key, _ := result.cursor.Last()
-	_, result.key = GetTypeAndValue(key)
+	result.key = stripFieldType(key)
 
 	return result
 }
@@ -140,7 +150,7 @@ type TypedReverseBoltCursor struct {
 
 func (f *TypedReverseBoltCursor) Next() {
 	key, _ := f.cursor.Prev()
-	_, f.key = GetTypeAndValue(key)
+	f.key = stripFieldType(key)
 }
 
 func (f *TypedReverseBoltCursor) Seek(val []byte) {
